@@ -5,6 +5,7 @@ import copy
 import pickle
 
 from common import Case, W, plist, tf, errname, rand_value
+import common
 import netaddr
 from netaddr import IPNetwork, IPAddress, IPRange, IPGlob, IPSet, EUI
 
@@ -65,7 +66,7 @@ def build(o):
     if k == 'R':
         return IPRange(IPAddress(o[2], o[1]), IPAddress(o[3], o[1]))
     if k == 'G':
-        return IPGlob(o[3])
+        return common.make_glob(o[3])
     if k == 'S':
         return IPSet([IPNetwork((v, p), version=ver) for ver, v, p in o[1]])
     if k == 'E':
